@@ -708,6 +708,12 @@ class Manager:
         value = None
         err = None
 
+        # (the dispatch itself counts as a pending handler: a handler may
+        # tick() or flush(), and a generator handler of this event that
+        # finishes in there must not make the event done under the hands of
+        # the handlers still to come)
+        event.waitingHandlers += 1
+
         for event_handler in event_handlers:
             event.handler = event_handler
             # a handler that exits (KeyboardInterrupt, SystemExit) returns
@@ -749,6 +755,7 @@ class Manager:
                 break  # Stop further event processing
 
         self._currently_handling = handling
+        event.waitingHandlers -= 1
         self._eventDone(event, err)
 
     def _eventDone(self, event, err=None):
